@@ -25,6 +25,8 @@ Shapes(conn) ==
   \cup {F(conn, f, "and", p[1], p[2], "sp") : f \in (IF Rich THEN {"map", "struct", "expr", "group", "named"} ELSE {"map", "group"}), p \in Pairs}
   \cup {F(conn, f, "or", p[1], p[2], "sp") : f \in (IF Rich THEN {"expr", "group", "named"} ELSE {"expr", "group"}), p \in Pairs}
   \cup {F(conn, f, "not", x, "-", "sp") : f \in (IF Rich THEN {"raw", "expr", "group"} ELSE {"raw"}), x \in AtomNames}
+  \* a sub-builder whose only condition is one clause expression (clause.Or(x, y) / clause.And(x, y))
+  \cup {F(conn, "group", sh, p[1], p[2], "sp") : sh \in {"orx", "andx"}, p \in Pairs}
 EmptyShapes(conn) == {F(conn, "empty", e, "-", "-", "sp") : e \in {"str", "map", "struct", "slice"}}
 
 Units(first) ==
@@ -44,6 +46,8 @@ UnitOf(f) ==
                                        [conn |-> "W", form |-> "map", ast |-> AtomAst(f.y), sub |-> <<>>]>>
                [] f.shape = "or"  -> <<[conn |-> "W", form |-> "raw", ast |-> AtomAst(f.x), sub |-> <<>>],
                                        [conn |-> "O", form |-> "raw", ast |-> AtomAst(f.y), sub |-> <<>>]>>
+               [] f.shape = "orx" -> <<[conn |-> "W", form |-> "expr", ast |-> [k |-> "or", xs |-> <<AtomAst(f.x), AtomAst(f.y)>>], sub |-> <<>>]>>
+               [] f.shape = "andx" -> <<[conn |-> "W", form |-> "expr", ast |-> [k |-> "and", xs |-> <<AtomAst(f.x), AtomAst(f.y)>>], sub |-> <<>>]>>
                [] f.shape = "not" -> <<[conn |-> "N", form |-> "raw", ast |-> AtomAst(f.x), sub |-> <<>>]>>]
   ELSE [conn |-> f.conn, form |-> f.form, sub |-> <<>>,
         ast |-> CASE f.shape = "atom" -> AtomAst(f.x)
